@@ -81,8 +81,27 @@ impl SnapshotTracker {
 	/// Called when a new snapshot is created. The sequence number is added
 	/// to the tracking set, ensuring compaction will preserve versions
 	/// visible to this snapshot.
+	#[cfg_attr(not(test), allow(dead_code))]
 	pub(crate) fn register(&self, seq_num: u64) {
 		*self.snapshots.lock().entry(seq_num).or_insert(0) += 1;
+	}
+
+	/// Registers a new snapshot at the sequence number that `current` returns,
+	/// reading it while the tracker is locked.
+	///
+	/// A compaction captures the snapshot list under the same lock. Reading the
+	/// horizon first and registering afterwards leaves a window in which a
+	/// compaction that does not see this snapshot yet drops a version the
+	/// snapshot needs (a newer version of the key became visible and was
+	/// flushed in between). With the read inside the lock the snapshot is
+	/// either in the captured list, or its sequence number is at least the
+	/// horizon at capture time, so it needs none of the versions that
+	/// compaction may drop.
+	pub(crate) fn register_current(&self, current: impl FnOnce() -> u64) -> u64 {
+		let mut snapshots = self.snapshots.lock();
+		let seq_num = current();
+		*snapshots.entry(seq_num).or_insert(0) += 1;
+		seq_num
 	}
 
 	/// Unregisters a snapshot with the given sequence number.
@@ -147,12 +166,23 @@ pub(crate) struct Snapshot {
 }
 
 impl Snapshot {
-	/// Creates a new snapshot at the current sequence number
+	/// Creates a new snapshot at the given sequence number
+	#[cfg_attr(not(test), allow(dead_code))]
 	pub(crate) fn new(core: Arc<Core>, seq_num: u64) -> Self {
 		// Register this snapshot's sequence number so compaction knows
 		// to preserve versions visible to this snapshot
 		core.snapshot_tracker.register(seq_num);
 
+		Self {
+			core,
+			seq_num,
+		}
+	}
+
+	/// Creates a new snapshot at the current visible sequence number, read and
+	/// registered atomically with respect to compaction's snapshot capture.
+	pub(crate) fn new_current(core: Arc<Core>) -> Self {
+		let seq_num = core.snapshot_tracker.register_current(|| core.seq_num());
 		Self {
 			core,
 			seq_num,
